@@ -57,6 +57,11 @@ class Verifier(Interp):
 
     def pred_formula(self, name, args):
         pr = self.reg.preds[name]
+        if pr.opaque and not getattr(self, "_defining_pred", None) == name:
+            flat = []
+            for (pn, pty), a in zip(pr.params, args):
+                flat.extend(self.flatten_arg(pty, a))
+            return FG(self.pred_uf(pr)(*flat))
         env = {p: a for (p, _), a in zip(pr.params, args)}
         self.spec_envs.append(env)
         try:
@@ -94,7 +99,13 @@ class Verifier(Interp):
             k = z3.Const(self.fresh_name("q." + names[0]), sort_of(c.ty))
             vars_ = [k]
             env[names[0]] = P(c.ty, k)
-        elif isinstance(c, (Conc, ListV)):
+        elif isinstance(c, P) and c.ty.kind == "seq" or isinstance(dom, OptV):
+            sq = lib.seq_of(self, dom)
+            k = z3.Int(self.fresh_name("q.i"))
+            vars_ = [k]
+            guard = z3.And(k >= 0, k < z3.Length(sq.term))
+            env[names[0]] = P(sq.ty.args[0], sq.term[k])
+        elif isinstance(c, (Conc, ListV, TupV)):
             # finite concrete domain: conjunction
             items = lib.iter_concrete(self, dom)
             parts = []
@@ -149,6 +160,8 @@ class Verifier(Interp):
                     v = self.ev(n.args[0])
                     if isinstance(v, Ref) and v.ty.kind in ("map", "bimap", "list", "set"):
                         v = self.heap_override[v.rid]   # snapshot of the cell content
+                    elif isinstance(v, OptV) and isinstance(v.val, Ref) and v.val.ty.kind in ("map", "bimap", "list", "set"):
+                        v = OptV(v.some, self.heap_override[v.val.rid])
                     return v
                 finally:
                     self.heap_override = saved
@@ -270,8 +283,82 @@ class Verifier(Interp):
         self._def_schemas[sf.name] = sc
         return sc
 
+    def pred_uf(self, pr):
+        sorts = []
+        for _, pty in pr.params:
+            if pty.kind == "obj":
+                ot = self.reg.objtypes[pty.args[0]]
+                for f in ot.all_config(self.reg):
+                    sorts.append(sort_of(ot.all_fields(self.reg)[f]))
+            else:
+                sorts.append(sort_of(pty))
+        return uf("pred_" + pr.name, *sorts, z3.BoolSort())
+
+    def pred_def_schemas(self, pr):
+        """Opaque predicate P(params) <=> clauses, as two quantifier-free-instantiable schemas:
+        (D1) P(params) => clause[k]   for every k;   (D2) clause[sk(params)] => P(params) (skolemised)."""
+        key = "pred." + pr.name
+        if key in self._def_schemas:
+            return self._def_schemas[key]
+        self._def_schemas[key] = []
+        env, pvars = {}, []
+        for pn, pty in pr.params:
+            c = z3.Const("%s.def.%s" % (pr.name, pn), sort_of(pty))
+            pvars.append(c)
+            env[pn] = P(pty, c)
+        atom = self.pred_uf(pr)(*pvars)
+        saved_envs, self.spec_envs = self.spec_envs, []
+        saved_st = self.st
+        from .engine import State
+        self.st = State()
+        self._defining_pred = pr.name
+        try:
+            def build():
+                f = FAnd([self.formula(e) for _, e in pr.clauses], [lab for lab, _ in pr.clauses])
+                self.assume(FImp(atom, f), "def." + pr.name, vars_=pvars)
+                return f
+            f = self.spec_eval(build, env)
+            d1 = list(self.st.schemas)
+            ground1 = list(self.st.pc)
+        finally:
+            self._defining_pred = None
+            self.st = saved_st
+            self.spec_envs = saved_envs
+        out = []
+        for sc in d1:
+            sc.triggers = [[atom]]
+            sc.origin = "def"
+            out.append(sc)
+        for g in ground1:
+            out.append(Schema("def.%s.g" % pr.name, pvars, g, triggers=[[atom]], origin="def"))
+        # D2
+        sk_subst = []
+
+        def skolemise(f):
+            if isinstance(f, FG):
+                return f.b
+            if isinstance(f, FAnd):
+                return z3.And([skolemise(p) for p in f.parts] or [z3.BoolVal(True)])
+            if isinstance(f, FImp):
+                return z3.Implies(f.g, skolemise(f.body))
+            if isinstance(f, FAll):
+                body = z3.Implies(f.guard, skolemise(f.body))
+                subs = []
+                for v in f.vars:
+                    skf = uf("sk.%s.%s" % (pr.name, v.decl().name()), *[x.sort() for x in pvars], v.sort())
+                    subs.append((v, skf(*pvars)))
+                return z3.substitute(body, *subs)
+            raise Unsupported("formula in opaque predicate")
+        g2 = skolemise(f)
+        out.append(Schema("def.%s.intro" % pr.name, pvars, z3.Implies(g2, atom), triggers=[[atom]], origin="def"))
+        self._def_schemas[key] = out
+        return out
+
     def lemma_schemas(self):
         out = []
+        for pr in self.reg.preds.values():
+            if pr.opaque:
+                out.extend(self.pred_def_schemas(pr))
         for sf in self.reg.specs.values():
             if not sf.inline:
                 sc = self.def_schema(sf)
@@ -317,7 +404,7 @@ class Verifier(Interp):
                     req.append(extra_guard(env))
                 ens = [self.formula_to_ground(self.formula(e)) for e in lem.ensures]
                 trig = None
-                if lem.triggers:
+                if lem.triggers is not None:
                     trig = [[self.term(self.ev(self.parse(t))) for t in multi] for multi in lem.triggers]
                 return req, ens, trig
             req, ens, trig = self.spec_eval(build, env)
@@ -474,7 +561,52 @@ class Verifier(Interp):
                 out[p] = self.coerce_arg(v, ty)
         return out
 
+    # ---- bit-vector mode (functions declared `bitvector=W`): Python ints are W-bit vectors with
+    # no-wrap side obligations, so the proof is about mathematical integers in [0, 2^W)
+    def bv_term(self, v, w):
+        if isinstance(v, P) and v.ty.kind == "bv":
+            return v.term
+        if isinstance(v, Conc) and isinstance(v.v, int) and not isinstance(v.v, bool):
+            if not (0 <= v.v < 2 ** w):
+                raise Unsupported("constant out of bit-vector range")
+            return z3.BitVecVal(v.v, w)
+        raise Unsupported("bit-vector operand %r" % (v,))
+
+    def bv_binop(self, op, a, b, node):
+        w = (a if lib.is_bv(a) else b).ty.args[0]
+        x, y = self.bv_term(a, w), self.bv_term(b, w)
+        ty = Ty("bv", w)
+        if isinstance(op, ast.BitXor):
+            return P(ty, x ^ y)
+        if isinstance(op, ast.BitAnd):
+            return P(ty, x & y)
+        if isinstance(op, ast.BitOr):
+            return P(ty, x | y)
+        if isinstance(op, ast.RShift):
+            return P(ty, z3.LShR(x, y))
+        if isinstance(op, ast.Add):
+            if not self.spec_mode:
+                self.emit("%s#enc.bv.add-no-wrap" % self.cur_func, z3.BVAddNoOverflow(x, y, False),
+                          meta={"kind": "encoding"})
+            return P(ty, x + y)
+        if isinstance(op, ast.Sub):
+            if not self.spec_mode:
+                self.emit("%s#enc.bv.sub-no-wrap" % self.cur_func, z3.BVSubNoUnderflow(x, y, False),
+                          meta={"kind": "encoding"})
+            return P(ty, x - y)
+        if isinstance(op, ast.LShift):
+            raise Unsupported("left shift in bit-vector mode (would need a no-overflow obligation)")
+        raise Unsupported("bit-vector op %s" % type(op).__name__)
+
+    def equal(self, a, b):
+        if lib.is_bv(a) or lib.is_bv(b):
+            w = (a if lib.is_bv(a) else b).ty.args[0]
+            return self.bv_term(a, w) == self.bv_term(b, w)
+        return super().equal(a, b)
+
     def coerce_arg(self, v, ty):
+        if ty.kind == "bv" and not self.bv_mode:
+            return self.coerce(v, INT)   # contract clauses are re-read over mathematical ints at call sites
         if isinstance(v, Fun) and ty.kind == "opq":
             # function value passed where an opaque callable is expected
             name = v.fi.key if hasattr(v, "fi") else getattr(v, "name", "fn")
@@ -567,6 +699,8 @@ class Verifier(Interp):
             self.st.heap[ref.rid] = new
         elif isinstance(old, MapV):
             self.st.heap[ref.rid] = self.fresh_map_val(old, hint)
+        elif isinstance(old, P):
+            self.st.heap[ref.rid] = P(old.ty, z3.Const(self.fresh_name("hv." + hint), sort_of(old.ty)))
         else:
             raise Unsupported("havoc of cell %r" % (old,))
 
@@ -594,6 +728,15 @@ class Verifier(Interp):
             keys = [a for a, _ in v.pairs]
             return lib.alloc(self, ty, BimapV(build(v.pairs, kt, vt), build([(b, a) for a, b in v.pairs], vt, kt)),
                              "cell.bidict")
+        if ty.kind == "list":
+            if isinstance(v, Ref) and v.ty.kind == "list":
+                c = self.st.heap[v.rid]
+                if isinstance(c, P):
+                    return v
+            sq = lib.seq_of(self, v)
+            if sq is None:
+                sq = P(SeqT(ty.args[0]), z3.Empty(sort_of(SeqT(ty.args[0]))))
+            return lib.alloc(self, ty, sq, "cell.list")
         return super().coerce(v, ty)
 
     # maps are boxed in heap cells
@@ -606,6 +749,9 @@ class Verifier(Interp):
                         self.fresh_map(ty.args[1], ty.args[0], hint + ".inv"))
             self.assume_bimap_consistent(bm)
             return lib.alloc(self, ty, bm, "cell." + hint)
+        if ty.kind == "list":
+            et = ty.args[0]
+            return lib.alloc(self, ty, P(SeqT(et), z3.Const(self.fresh_name(hint), sort_of(SeqT(et)))), "cell." + hint)
         return super().fresh(ty, hint)
 
     def hint_terms(self):
@@ -693,7 +839,13 @@ class Verifier(Interp):
 
     def iter_model(self, it, s):
         """Model the iterable as (length term, element-at(k) function returning Val)."""
+        if isinstance(it, OptV):
+            it = it.val
         c = cell(self, it)
+        if isinstance(c, ListV):
+            c = lib.seq_of(self, it)
+            if c is None:
+                return zint(0), (lambda k: NoneV())
         if isinstance(c, Special) and c.tag == "range":
             lo, hi = self.term(c.lo, INT), self.term(c.hi, INT)
             n = z3.If(hi - lo < 0, zint(0), hi - lo)
@@ -741,6 +893,7 @@ class Verifier(Interp):
         # fork: either run one arbitrary iteration (then cut) or exit
         if self.decide(z3.BoolVal(True) if False else z3.Bool(self.fresh_name("loop%d.step" % ordn))):
             self.st.pc.append(z3.And(k >= 0, k < n))
+            self.st.vars[kname] = P(INT, k)   # ghost local: loop index, visible to inner invariants
             self.assume(inv_formula(k), "inv")
             self.assign(s.target, at(k))
             try:
